@@ -457,6 +457,12 @@ def DoS.toDense : DoS F → Outcome (List F)
   | .d p => .ok p
   | .s p => sparseToDense p
 
+/-- `TryInto<SparsePolynomial<F>> for DenseOrSparsePolynomial`: `Ok(p.into_owned())` for the sparse
+    variant, `Err(())` (= `none`) for the dense variant -/
+def DoS.tryIntoSparse : DoS F → Option (Terms F)
+  | .s p => some p
+  | .d _ => none
+
 /-- the `while` loop of `divide_with_q_and_r`.  Over a field, and with a divisor whose last stored
     term really is its leading term, every iteration shortens the remainder, so
     `fuel = remainder.len() + 1` is never exhausted.  (A sparse divisor storing its top degree
